@@ -110,6 +110,12 @@ GROUPS = {
 }
 
 
+def _lake_build(targets):
+    from ..core import Lock          # the same lock core.py holds around its own `lake build`
+    with Lock():
+        subprocess.run(['lake', 'build'] + targets, cwd=LEAN, capture_output=True, text=True, timeout=900)
+
+
 def _sections(text):
     return {m.group(1): m.group(2) for m in re.finditer(r'-- BEGIN (\w+)\n(.*?)-- END \1\n', text, re.S)}
 
@@ -269,7 +275,7 @@ def validate(group, defs, per_def=300):
     with open(tmp, 'w') as f:
         f.write('\n'.join(lines) + '\n')
     try:
-        subprocess.run(['lake', 'build', f'TonVerif.Generated.{group}'], cwd=LEAN, capture_output=True, text=True, timeout=600)
+        _lake_build([f'TonVerif.Generated.{group}'])
         p = subprocess.run(['lake', 'env', 'lean', tmp], cwd=LEAN, capture_output=True, text=True, timeout=600)
     finally:
         os.unlink(tmp)
@@ -334,8 +340,7 @@ def diff_points(groups, limit=16, timeout=600):
     with open(tmp, 'w') as f:
         f.write('\n'.join(lines) + '\n')
     try:
-        subprocess.run(['lake', 'build'] + [f'TonVerif.Generated.{g}' for g in groups] + ['TonVerif.Model.Cell', 'TonVerif.Spec.Cell'],
-                       cwd=LEAN, capture_output=True, text=True, timeout=timeout)      # the oleans must be those of the current text
+        _lake_build([f'TonVerif.Generated.{g}' for g in groups] + ['TonVerif.Model.Cell', 'TonVerif.Spec.Cell'])   # oleans of the current text
         p = subprocess.run(['lake', 'env', 'lean', tmp], cwd=LEAN, capture_output=True, text=True, timeout=timeout)
     finally:
         os.unlink(tmp)
